@@ -88,7 +88,8 @@ theorem ffl_Element_Equal_ok_true {z x : List Nat} (hz : z.length = 4) (hx : x.l
     ffl_Element_Equal_ok z x = true := by
   obtain ⟨a, b, c, d, rfl⟩ := length_four hz
   obtain ⟨a', b', c', d', rfl⟩ := length_four hx
-  rfl
+  unfold ffl_Element_Equal_ok
+  simp only [inRange4_0, inRange4_1, inRange4_2, inRange4_3, Bool.or_true, req_true]
 
 /-- **`z.IsZero()`** -/
 theorem ffl_Element_IsZero_ok_true {z : List Nat} (hz : z.length = 4) : ffl_Element_IsZero_ok z = true := by
@@ -114,7 +115,7 @@ theorem ffl_Element_Bit_ok_true {z : List Nat} (hz : z.length = 4) (i : Nat) : f
   · rfl
   · next hj =>
     have hj' : i / 64 < 4 := by simpa using hj
-    rw [req_of (inRange_of (by omega) (by rw [hz]; omega)), req_of h64, req_of h64]
+    rw [req_of (inRange_of (by omega) (by rw [hz]; omega)), req_of h64]
 
 /-- **`z.ToBigInt(res)`** (the Montgomery words as an integer): four limbs, any contents, every `res`.  The four
     `PutUint64(b[lo:hi], …)` write into 8-byte windows of the local `[32]byte`. -/
@@ -362,7 +363,7 @@ theorem ffgl_Element_Bit_ok_true {z : List Nat} (hz : z.length = 1) (i : Nat) : 
   · rfl
   · next hj =>
     have hj' : i / 64 < 1 := by simpa using hj
-    rw [req_of (inRange_of (by omega) (by rw [hz]; omega)), req_of h64, req_of h64]
+    rw [req_of (inRange_of (by omega) (by rw [hz]; omega)), req_of h64]
 
 /-- **`z.ToBigInt(res)`** (the Montgomery word as an integer): one limb, any contents, every `res`. -/
 theorem ffgl_Element_ToBigInt_ok_true {z : List Nat} (hz : z.length = 1) (res : Int) :
